@@ -80,6 +80,9 @@ pub struct Machine<T: Crdt> {
     /// step, so the equal-knowledge oracle does not apply to them
     forgot: Vec<bool>,
     snap_forgot: BTreeMap<String, bool>,
+    /// the replica at which each actor first generated an op: an actor later used at ANOTHER replica is the misuse the
+    /// properties exclude ("each actor confined to one replica") – the freshness oracle makes no claim for it
+    actor_home: BTreeMap<u64, usize>,
 }
 
 impl<T: Crdt> Machine<T> {
@@ -93,6 +96,7 @@ impl<T: Crdt> Machine<T> {
             snaps: BTreeMap::new(),
             forgot: vec![false; n],
             snap_forgot: BTreeMap::new(),
+            actor_home: BTreeMap::new(),
         }
     }
     fn rep(&self, t: &str) -> Option<usize> {
@@ -115,12 +119,13 @@ impl<T: Crdt> Machine<T> {
                 match T::gen(&self.reps[r], actor, args).and_then(|op| T::admit(name, op)) {
                     None => Some("nogen".into()),
                     Some(op) => {
+                        let home = *self.actor_home.entry(actor).or_insert(r);
                         // freshness oracle: a generated dot must not be carried by any earlier op
                         let fresh = match T::op_dot(&op) {
                             // a replica that has "forgotten" (reset_remove) no longer knows its own dots
                             Some(_) if self.forgot[r] => " fresh=na",
                             // an actor used away from its own replica (`GA r a`, a != r) is the MISUSE the property excludes: no claim
-                            Some(_) if actor != r as u64 => " fresh=na",
+                            Some(_) if actor != r as u64 || home != r => " fresh=na",
                             Some(d) => {
                                 if self.ops.iter().any(|(n, o)| n != name && T::op_dot(o).as_deref() == Some(d.as_str())) {
                                     " fresh=FAIL"
